@@ -1517,6 +1517,12 @@ def _call_tensor_method(it, tm, args, kwargs, node, fi):
         return nf.fn("sign", x)
     if name == "item":
         return x
+    if name in ("clamp", "clamp_min", "clamp_max", "clip", "relu", "floor", "ceil", "round", "trunc", "exp", "log", "tanh",
+                "sin", "cos", "sigmoid", "softplus", "reciprocal", "rsqrt"):
+        # non-linear element-wise maps: opaque functions of the receiver and their arguments (never the identity)
+        extra = [a for a in args] + [kwargs[k] for k in sorted(kwargs)]
+        keyed = [a if isinstance(a, (Rat, Fraction, int, float, str, type(None), bool)) else repr(a) for a in extra]
+        return nf.fn(name, x, *keyed)
     raise it.err(f"tensor method `.{name}` has no modelled meaning", node, fi)
 
 
